@@ -11,6 +11,7 @@ import (
 )
 
 type ModelCtx struct {
+	children []*ModelCtx
 	parent   context.Context
 	done     chan struct{}
 	closed   bool
@@ -31,6 +32,10 @@ func (c *ModelCtx) cancel(err, cause error) {
 	}
 	c.cause = cause
 	close(c.done)
+	for _, ch := range c.children {
+		ch.cancel(err, cause)
+	}
+	c.children = nil
 }
 
 func (c *ModelCtx) poll() {
@@ -59,7 +64,16 @@ func (c *ModelCtx) Value(key any) any {
 }
 
 func newModelCtx(parent context.Context) *ModelCtx {
-	return &ModelCtx{parent: parent, done: make(chan struct{})}
+	c := &ModelCtx{parent: parent, done: make(chan struct{})}
+	if p, ok := parent.(*ModelCtx); ok {
+		// like the real package: cancellation propagates to children at once (also to goroutines blocked on Done())
+		if p.closed {
+			c.cancel(p.err, p.cause)
+		} else {
+			p.children = append(p.children, c)
+		}
+	}
+	return c
 }
 
 func CtxWithCancel(parent context.Context) (context.Context, context.CancelFunc) {
